@@ -1096,6 +1096,11 @@ Lemma check_left_covers s i : In i (check_left_sites s) <-> (0 <= i <= site_num 
 Proof. unfold check_left_sites. rewrite py_range_up, in_zup. lia. Qed.
 End Checks.
 
+(* ---- the one-site tests use the documented tolerances symmetrically ---- *)
+Lemma ortho_tolerances_symmetric (A : Type) (rtol atol : A) :
+  lortho_tol rtol atol = (rtol, atol) /\ rortho_tol rtol atol = (rtol, atol).
+Proof. split; reflexivity. Qed.
+
 (* ---- variational compression: the convergence test must see a snapshot of the previous sweep ---- *)
 (* generated: variational_old prev cur = the operand `mps_old` of `mps.distance(mps_old)`.  With
    `mps_old = mps.copy()` it is the previous sweep's state; with an alias (`mps_old = mps`) it is the current
